@@ -360,6 +360,7 @@ func (q *messageQueue) Drain(instance uint64) []*GMessage {
 	for _, ms := range q.messages[instance] {
 		msgs = append(msgs, ms...)
 	}
+	verifOrderDrained(msgs)
 	sort.SliceStable(msgs, func(i, j int) bool {
 		if msgs[i].Vote.Round != msgs[j].Vote.Round {
 			return msgs[i].Vote.Round < msgs[j].Vote.Round
